@@ -1914,36 +1914,65 @@ func ruleScp4(c *Ctx) {
 	adders := map[string]bool{"lib/query.(VariableMap).Add": true, "lib/query.(VariableMap).Declare": true, "lib/query.(VariableMap).Store": true, "lib/query.(VariableMap).Set": true}
 	isAdder := func(f *ssa.Function) bool { return adders[c.P.FnRef(f)] }
 	nb := 0
-	for _, call := range core.Calls(udfBody) {
-		if !c.P.CallReaches(call, isAdder) || c.P.CallReaches(call, func(f *ssa.Function) bool { return f == exec }) {
-			continue
-		}
-		if len(call.Common().Args) == 0 {
-			continue
-		}
-		in := call.(ssa.Instruction)
-		// Evaluate(ctx, scope, default) may reach a declaration through a subquery: only direct binders
-		g := core.StaticCallee(call)
-		if g == nil || !(adders[c.P.FnRef(g)] || (g.Signature.Recv() != nil && scpIsPtrTo(g.Signature.Recv().Type(), scpTRefScope))) {
-			continue
-		}
-		nb++
-		key := c.KeyAt(udfBody, fmt.Sprintf("parameter binding #%d via %s", nb, g.Name()))
-		recv := call.Common().Args[0]
-		if scpIsPtrTo(recv.Type(), scpTRefScope) {
-			// a *ReferenceScope method: must be on the scope parameter, and declare innermost (R-SCP-1 covers the method)
-			c.Check(scpResolveCell(recv) == ssa.Value(sp), key, c.Pos(in), "binds through a declaring method of the scope it was given", "binds a parameter through a scope other than the one the function body runs in")
-			continue
-		}
-		accs := scpTraceElem(recv, 0)
-		ok := len(accs) > 0
-		for _, a := range accs {
-			if a.class != scpIdxZero || a.root != ssa.Value(sp) {
-				ok = false
+	// bindings in the body runner itself and in its private helpers (functions
+	// that receive the scope and are called from nowhere else)
+	var scanBindings func(fn *ssa.Function, sp *ssa.Parameter, depth int)
+	scanBindings = func(fn *ssa.Function, sp *ssa.Parameter, depth int) {
+		for _, call := range core.Calls(fn) {
+			if len(call.Common().Args) == 0 {
+				continue
 			}
+			in := call.(ssa.Instruction)
+			g := core.StaticCallee(call)
+			if g == nil {
+				continue
+			}
+			// a private helper that is handed the scope: follow it
+			if depth < 2 && g.Blocks != nil && g != fn && c.P.FnReaches(g, isAdder) && !adders[c.P.FnRef(g)] &&
+				!(g.Signature.Recv() != nil && scpIsPtrTo(g.Signature.Recv().Type(), scpTRefScope)) {
+				private := true
+				callers := scpCallers(c, g, true)
+				for _, e := range callers {
+					if e.Caller.Func != fn {
+						private = false
+					}
+				}
+				if private && len(callers) > 0 {
+					for j, a := range call.Common().Args {
+						if scpResolveCell(a) == ssa.Value(sp) && j < len(g.Params) {
+							c.Touch(g)
+							scanBindings(g, g.Params[j], depth+1)
+						}
+					}
+					continue
+				}
+			}
+			if !c.P.CallReaches(call, isAdder) || c.P.CallReaches(call, func(f *ssa.Function) bool { return f == exec }) {
+				continue
+			}
+			// Evaluate(ctx, scope, default) may reach a declaration through a subquery: only direct binders
+			if !(adders[c.P.FnRef(g)] || (g.Signature.Recv() != nil && scpIsPtrTo(g.Signature.Recv().Type(), scpTRefScope))) {
+				continue
+			}
+			nb++
+			key := c.KeyAt(fn, fmt.Sprintf("parameter binding #%d via %s", nb, g.Name()))
+			recv := call.Common().Args[0]
+			if scpIsPtrTo(recv.Type(), scpTRefScope) {
+				// a *ReferenceScope method: must be on the scope parameter, and declare innermost (R-SCP-1 covers the method)
+				c.Check(scpResolveCell(recv) == ssa.Value(sp), key, c.Pos(in), "binds through a declaring method of the scope it was given", "binds a parameter through a scope other than the one the function body runs in")
+				continue
+			}
+			accs := scpTraceElem(recv, 0)
+			ok := len(accs) > 0
+			for _, a := range accs {
+				if a.class != scpIdxZero || a.root != ssa.Value(sp) {
+					ok = false
+				}
+			}
+			c.Check(ok, key, c.Pos(in), "binds into element 0 of the scope it was given", "a parameter is bound into something other than element 0 of the function's own scope: arguments would overwrite or collide with the caller's variables")
 		}
-		c.Check(ok, key, c.Pos(in), "binds into element 0 of the scope it was given", "a parameter is bound into something other than element 0 of the function's own scope: arguments would overwrite or collide with the caller's variables")
 	}
+	scanBindings(udfBody, sp, 0)
 	if nb == 0 {
 		c.Unknown(c.KeyAt(udfBody, "parameter binding"), c.FnPos(udfBody), "no parameter binding found in the function body runner")
 	}
